@@ -108,11 +108,34 @@ def _scalar(x):
     return x
 
 
+def _strwidth(dtype):
+    """width of a fixed-width unicode dtype spec ('<U3', 'U3', numpy.dtype('<U3')) or None"""
+    if dtype is None or dtype is str:
+        return None
+    try:
+        dt = _np.dtype(dtype)
+    except TypeError:
+        return None
+    if dt.kind == "U" and dt.itemsize:
+        return dt.itemsize // 4
+    return None
+
+
+def _slen(e):
+    if hasattr(e, "chars"):
+        return len(e.chars)
+    if getattr(e, "__sym__", None) == "absstr":
+        return None
+    return len(e)
+
+
 class ndarray:
     __array_priority__ = 10000
+    sw = None   # fixed width of a unicode array (numpy truncates longer strings on assignment), None = not a fixed-width string array
 
-    def __init__(self, flat, shape, kind=None):
+    def __init__(self, flat, shape, kind=None, sw=None):
         self._f = list(flat)
+        self.sw = sw
         self.shape = tuple(shape)
         n = 1
         for s in self.shape:
@@ -143,7 +166,7 @@ class ndarray:
         return self.shape[0]
 
     def copy(self):
-        return ndarray(self._f, self.shape)
+        return ndarray(self._f, self.shape, sw=self.sw)
 
     def astype(self, t):
         if t is float or getattr(t, "_is_sym_float", False) or t is _np.float64:
@@ -173,10 +196,10 @@ class ndarray:
 
     def flatten(self, order="C"):
         if order == "C" or self.ndim <= 1:
-            return ndarray(self._f, (len(self._f),))
+            return ndarray(self._f, (len(self._f),), sw=self.sw)
         assert self.ndim == 2
         R, C = self.shape
-        return ndarray([self._f[r * C + c] for c in range(C) for r in range(R)], (R * C,))
+        return ndarray([self._f[r * C + c] for c in range(C) for r in range(R)], (R * C,), sw=self.sw)
 
     ravel = flatten
 
@@ -194,18 +217,18 @@ class ndarray:
         if n != len(self._f):
             raise ValueError(f"cannot reshape array of size {len(self._f)} into shape {shape}")
         if order == "C" or len(shape) < 2:
-            return ndarray(self.flatten()._f, shape)
+            return ndarray(self.flatten()._f, shape, sw=self.sw)
         assert len(shape) == 2
         R, C = shape
         src = self.flatten("F")._f
-        return ndarray([src[c * R + r] for r in range(R) for c in range(C)], shape)
+        return ndarray([src[c * R + r] for r in range(R) for c in range(C)], shape, sw=self.sw)
 
     @property
     def T(self):
         if self.ndim < 2:
             return self.copy()
         R, C = self.shape
-        return ndarray([self._f[r * C + c] for c in range(C) for r in range(R)], (C, R))
+        return ndarray([self._f[r * C + c] for c in range(C) for r in range(R)], (C, R), sw=self.sw)
 
     # ---- indexing
     def __getitem__(self, idx):
@@ -222,10 +245,10 @@ class ndarray:
             (i,) = idx
             if isinstance(i, slice):
                 sub = self._f[i]
-                return ndarray(sub, (len(sub),))
+                return ndarray(sub, (len(sub),), sw=self.sw)
             if isinstance(i, (list, ndarray)):
                 ii = i.tolist() if isinstance(i, ndarray) else i
-                return ndarray([self._f[operator.index(j)] for j in ii], (len(ii),))
+                return ndarray([self._f[operator.index(j)] for j in ii], (len(ii),), sw=self.sw)
             return _scalar(self._f[operator.index(i)])
         assert self.ndim == 2, self.shape
         R, C = self.shape
@@ -249,11 +272,11 @@ class ndarray:
         cols, ckeep = expand(ci, C)
         vals = [self._f[r * C + c] for r in rows for c in cols]
         if rkeep and ckeep:
-            return ndarray(vals, (len(rows), len(cols)))
+            return ndarray(vals, (len(rows), len(cols)), sw=self.sw)
         if rkeep:
-            return ndarray(vals, (len(rows),))
+            return ndarray(vals, (len(rows),), sw=self.sw)
         if ckeep:
-            return ndarray(vals, (len(cols),))
+            return ndarray(vals, (len(cols),), sw=self.sw)
         return _scalar(vals[0])
 
     def __setitem__(self, idx, value):
@@ -294,6 +317,9 @@ class ndarray:
         self._f[(r % R) * C + (c % C)] = self._coerce(value)
 
     def _coerce(self, v):
+        if self.sw is not None and isinstance(v, str):
+            n = _slen(v)
+            return v[: self.sw] if (n is None or n > self.sw) else v   # numpy silently truncates to the array's width
         # arrays created as float stay float
         if self._f and isinstance(self._f[0], float) and isinstance(v, int) and not isinstance(v, bool):
             return float(v)
@@ -477,6 +503,17 @@ def _isfloatlike(e):
 
 def array(x, dtype=None):
     flat, shape = _flatten_nested(x)
+    w = _strwidth(dtype)
+    if w is not None or (flat and builtins.all(isinstance(e, str) for e in flat)):
+        flat = [e if isinstance(e, str) else str(e) for e in flat]
+        if w is None:
+            lens = [_slen(e) for e in flat]
+            w = None if builtins.any(n is None for n in lens) else builtins.max(lens + [1])
+            if isinstance(x, ndarray) and x.sw is not None:
+                w = x.sw
+        else:
+            flat = [e[:w] if (_slen(e) is None or _slen(e) > w) else e for e in flat]
+        return ndarray(flat, shape, sw=w)
     if builtins.any(isinstance(e, str) for e in flat):
         flat = [e if isinstance(e, str) else str(e) for e in flat]
     elif builtins.any(_isfloatlike(e) for e in flat) or dtype is float:
@@ -510,10 +547,23 @@ def full(shape, value, dtype=None):
         n *= s
     if n < 0:
         raise ValueError("negative dimensions are not allowed")
-    return ndarray([value] * n, shape)
+    w = _strwidth(dtype)
+    if w is None and isinstance(value, str) and dtype in (None, str):
+        w = _slen(value)
+    if w is not None:
+        value = value[:w] if isinstance(value, str) else str(value)[:w]
+    return ndarray([value] * n, shape, sw=w)
+
+
+def empty(shape, dtype=float):
+    if _strwidth(dtype) is not None or dtype is str:
+        return full(shape, "", dtype=dtype if dtype is not str else "<U1")
+    return zeros(shape, dtype)
 
 
 def zeros(shape, dtype=float):
+    if _strwidth(dtype) is not None:
+        return full(shape, "", dtype=dtype)
     return full(shape, 0.0 if dtype is float or getattr(dtype, "_is_sym_float", False) else (0 if dtype is int else 0.0))
 
 
